@@ -157,6 +157,7 @@ func checkC16(p *Program, r *Report) {
 		r.Func(shortFn(in))
 		checkRejectBeforeEffects(p, r, ii, "ErrIndexNotAscending", "index")
 		checkRejectBeforeEffects(p, r, in, "ErrIndexLen", "indexes")
+		checkSuccessImpliesValidated(p, r, in, "ErrIndexLen", "indexes")
 	}
 	// constructors
 	for _, f := range p.FuncsOf(arrayPath) {
@@ -169,6 +170,19 @@ func checkC16(p *Program, r *Report) {
 		}
 		why := nilOnError(p, f)
 		r.Check(why == "", "array."+f.Name()+" returns nil on error", p.Pos(f.Pos()), "every return with a possibly non-nil error has a nil array", why)
+	}
+
+	// ---- stride: elements are laid out by the encoder and located by eltsize = GetEncodedSize;
+	// for the default encoder (a TypeEncoder made from the first element) that is its Size field
+	r.Rule("C16.stride", "provenance", "the default element encoder's stride is the encoded size, not an in-memory size", 1)
+	if srcs, sites, why := typeEncoderSizeProvenance(p); sites == 0 {
+		r.Unk("generic array stride (encode.TypeEncoder.Size)", "", "no store to TypeEncoder.Size found")
+	} else {
+		pos := ""
+		if in != nil {
+			pos = p.Pos(in.Pos())
+		}
+		r.Check(why == "", "generic array stride (encode.TypeEncoder.Size)", pos, fmt.Sprintf("%d store(s); sources %v", sites, srcs), why)
 	}
 
 	// ---- wire
@@ -361,3 +375,67 @@ func nilOnError(p *Program, f *ssa.Function) string {
 }
 
 func init() { checks["C16"] = checkC16 }
+
+// checkSuccessImpliesValidated: on the guarded summary of f, the sentinel is
+// returned under a condition C on len(list); every other non-panicking path —
+// unless it returns some other constant error — carries the complement of C,
+// so nothing is built (and nil is never returned) for input the validation
+// would have refused.
+func checkSuccessImpliesValidated(p *Program, r *Report, f *ssa.Function, sentinel, listParam string) {
+	construct := shortFn(f) + " succeeds only past the " + sentinel + " validation"
+	ps, why := flatten(p, f, nil, func(g *ssa.Function) bool { return false })
+	if why != "" {
+		r.Note("%s: not summarised (%s); the validated-success rule is not applied", shortFn(f), why)
+		return
+	}
+	lenT := "len(" + listParam + ")"
+	var fail string
+	for _, fp := range ps {
+		if fp.panics || len(fp.results) == 0 || !strings.HasSuffix(fp.results[len(fp.results)-1].String(), "."+sentinel) {
+			continue
+		}
+		for _, c := range fp.pc {
+			a, op, b, ok := splitCond(c)
+			if ok && (a == lenT || b == lenT) && (op == "!=" || op == "<") {
+				fail = c
+			}
+		}
+	}
+	if fail == "" {
+		r.Unk(construct, p.Pos(f.Pos()), "cannot identify the condition under which "+sentinel+" is returned")
+		return
+	}
+	a, op, b, _ := splitCond(fail)
+	if op != "!=" {
+		r.OK(construct, p.Pos(f.Pos()), "validation is not an equality test; rule not applied")
+		return
+	}
+	okc := "(" + a + " == " + b + ")"
+	var bad []string
+	for _, fp := range ps {
+		if fp.panics {
+			continue
+		}
+		has, hasFail := false, false
+		for _, c := range fp.pc {
+			if c == okc {
+				has = true
+			}
+			if c == fail {
+				hasFail = true
+			}
+		}
+		if has || hasFail {
+			continue
+		}
+		last := ""
+		if len(fp.results) > 0 {
+			last = fp.results[len(fp.results)-1].String()
+		}
+		if last != "nil" && !strings.HasPrefix(last, "call:") && !strings.HasPrefix(last, "extract:") && !strings.Contains(last, "(") {
+			continue // a constant error of its own
+		}
+		bad = append(bad, "a path under ["+abbreviate(fp.pcKey())+"] returns "+abbreviate(fp.resKey())+" without having passed "+okc+": input the validation refuses is accepted there")
+	}
+	r.Check(len(bad) == 0, construct, p.Pos(f.Pos()), "every non-panicking path carries "+okc+" or returns the sentinel under "+fail, strings.Join(dedupStrings(sortStr(bad)), "; "))
+}
